@@ -1,6 +1,7 @@
 use crate::util::*;
 pub mod matching;
 pub mod notation;
+pub mod rules;
 pub mod tables;
 
 pub struct Ctx {
@@ -18,6 +19,8 @@ pub fn run(unit: &str, ctx: &Ctx, rng: &mut Rng, o: &mut Out) -> bool {
     "c20_oracle" => notation::oracle(ctx, rng, o),
     "cut" => matching::cut_unit(ctx, rng, o),
     "near_miss" => matching::near_miss_unit(ctx, rng, o),
+    "rules_shared" => rules::rules_unit(ctx, rng, o, true),
+    "rules_disjoint" => rules::rules_unit(ctx, rng, o, false),
     _ => return false,
   }
   true
